@@ -147,6 +147,19 @@ def dims_pre(*vs):
 
 
 # ================================================================================================== Util.execute_xform_size
+def util_object(ex):
+    """a Util object as the REAL Util.setup() leaves it (so per-instance state a change introduces is followed), with time / ThreadPoolExecutor by assumed contracts"""
+    me = Obj('Util')
+    for glob_ in ex.modules.values():
+        glob_.update(time=Native(lambda ex_: z3.Real('t_setup'), 'time'), ThreadPoolExecutor=Native(lambda ex_, *a, **k: Obj('executor'), 'ThreadPoolExecutor'))
+    try:
+        ex.call_closure(closure(UTIL, 'Util.setup'), [me, adict(log=None, sleep=None, maxfps=None, xforms=None)], {})
+    except ExcSig as e:
+        raise Unsupported(f'contract no longer binds: Util.setup raises {e.cls} ({e.origin}) on a plain configuration')
+    return me
+
+
+
 class SizeUnit(Unit):
     name = 'Util.execute_xform_size'
     targets = (f'{UTIL}::Util.execute_xform_size',)
@@ -183,7 +196,7 @@ class SizeUnit(Unit):
         ex.model_vars = dict(h=h, w=w, H=H, W=W, aspect=aspect)
         ex.replay_info = dict(action=action, interp=interp)
         try:
-            out = ex.call_closure(fn, [Obj('Util'), xform, frame], {})
+            out = ex.call_closure(fn, [util_object(ex), xform, frame], {})
         except ExcSig as e:
             ex.oblige(f'C17.no_failure: execute_xform_size({action}) raises {e.cls} ({e.origin})', False)
             ex.outcome = 'raise'
@@ -229,7 +242,7 @@ class SizeUnit(Unit):
             if not asp:
                 items['aspect'] = False
             try:
-                o = ex.call_closure(closure(UTIL, 'Util.execute_xform_size'), [Obj('Util'), adict(**items), frame], {})
+                o = ex.call_closure(closure(UTIL, 'Util.execute_xform_size'), [util_object(ex), adict(**items), frame], {})
                 failed = [nm for nm, f, _ in ex.oblig if 'no_failure' in nm and z3.is_false(z3.simplify(f))]
                 mine = ('raise', 'error') if failed else ('ok', o.f['image'].f['h'], o.f['image'].f['w'])
             except ExcSig as e:
@@ -575,7 +588,7 @@ class XformsUnit(Unit):
         tx = adict(topic='main', frame=frame, xforms=[adict(action=action)])
         ex.model_vars = dict(h=h, w=w)
         try:
-            out = ex.call_closure(closure(UTIL, 'Util.execute_xforms'), [Obj('Util'), tx], {})
+            out = ex.call_closure(closure(UTIL, 'Util.execute_xforms'), [util_object(ex), tx], {})
         except ExcSig as e:
             ex.outcome = 'raise'
             ex.oblige(f'C17.no_failure: a documented action does not raise ({e.cls})', action == 'bogus')
